@@ -67,6 +67,9 @@ func TestC02(t *testing.T) {
 		if out.JoinLeaveConcurrent {
 			labels = append(labels, "join||leave")
 		}
+		if plan.LogJitterPct > 0 {
+			labels = append(labels, "log-jitter")
+		}
 		if out.AdjacentActions {
 			labels = append(labels, "adjacent-actions")
 		}
